@@ -41,7 +41,9 @@ OP9 == [kfs |-> <<Kf(0, <<4>>, N_, N_, N_, 2), Kf(0, N_, <<6>>, N_, N_, 3), Kf(0
 \* a step: two keyframes of one property at the same position (there the properties allow either value, but the
 \* same object must keep giving the same one whatever was evaluated before)
 OP10 == [kfs |-> <<Kf(0, <<8>>, N_, <<1>>, N_, 0), Kf(2, <<20>>, N_, <<5>>, N_, 0), Kf(2, <<50>>, N_, N_, N_, 0), Kf(4, <<80>>, N_, <<9>>, N_, 0)>>, de |-> 1, tm |-> Tm(4, 1, 1, FALSE)]
-ObjPool == << <<OP1>>, <<OP3>>, <<OP1, OP2>>, <<OP2, OP3>>, <<OP4, OP5, OP6>>, <<>>, <<OP5>>, <<OP6, OP1>>, <<OP7, OP3, OP4>>, <<OP2, OP7>>, <<OP9>>, <<OP9, OP2>>, <<OP10>> >>
+\* a part that starts three cycles late and repeats three times, next to an endless part of the same cycle length
+OP11 == [kfs |-> <<Kf(0, <<3>>, N_, N_, N_, 0), Kf(4, <<21>>, N_, N_, N_, 0)>>, de |-> 1, tm |-> Tm(2, 6, 3, FALSE)]
+ObjPool == << <<OP1>>, <<OP3>>, <<OP1, OP2>>, <<OP2, OP3>>, <<OP4, OP5, OP6>>, <<>>, <<OP5>>, <<OP6, OP1>>, <<OP7, OP3, OP4>>, <<OP2, OP7>>, <<OP9>>, <<OP9, OP2>>, <<OP10>>, <<OP4, OP11>> >>
 ValPool == << <<70, 71, 72, 73>>, <<-5, 0, 100, 1>>, <<8, 20, 9, 3>> >>
 
 I0(n) == <<"i", n>>
@@ -59,7 +61,8 @@ Meta(o) == [delay |-> MDelay(MkObjs(o)), total |-> MTotal(MkObjs(o)), reps |-> S
             cycle |-> MCycle(MkObjs(o)), n |-> Len(o.comps), nested |-> NestedMeta(o)]
 
 LCG(r) == ((r * 1103) + 12345) % 65521
-TimeSeq == SetToSeq(Times)
+TimesX == Times \cup {-3}            \* also before time zero (a cfg file cannot hold a negative number)
+TimeSeq == SetToSeq(TimesX)
 
 Apply(o) ==
   /\ hist' = Append(hist, o)
@@ -72,7 +75,7 @@ Apply(o) ==
      ELSE /\ objs' = Append(objs, objs[o.o])                        \* clone: an independent equal object
           /\ obs' = Append(obs, [vals |-> <<>>, meta |-> Meta(objs[o.o])])
 
-AllOps == [op : {"upd"}, o : 1..Len(objs), t : Times, g : 0..2] \cup [op : {"sw"}, o : 1..Len(objs), v : 1..Len(ValPool)]
+AllOps == [op : {"upd"}, o : 1..Len(objs), t : TimesX, g : 0..2] \cup [op : {"sw"}, o : 1..Len(objs), v : 1..Len(ValPool)]
           \cup (IF Len(objs) < 3 THEN [op : {"clone"}, o : 1..Len(objs)] ELSE {})
 
 \* KO = 0: every list of 0..3 components over the 8 shapes (all orders, with repetition)
